@@ -1,6 +1,6 @@
 /-
   Lemmas about model M7 (Galaxy.Policy), part 2: the walk over a compiled table
-    * chain lookups in `compileTable`;
+    * chain lookups in `compiledTable`;
     * GLX-PLCY-* chain  ↔ "some rule of the policy matches";
     * GLX-POD-* chain   ↔ API verdict for the pod (inside the fragment);
     * GLX-INGRESS / GLX-EGRESS ↔ the pod whose address the packet carries;
@@ -88,8 +88,8 @@ def baseTable (ps : List NetPol) (act : List Pod) : Table :=
      (Chain.glxIngress, (act.filter (hookedIngress ps)).flatMap (hookRule true)),
      (Chain.glxEgress, (act.filter (hookedEgress ps)).flatMap (hookRule false))]
 
-theorem compileTable_eq (c : Cluster) (ps : List NetPol) (node : String) :
-    compileTable c ps node =
+theorem compiledTable_eq (c : Cluster) (ps : List NetPol) (node : String) :
+    compiledTable c ps node =
       baseTable ps (activePods c ps node) ++
       (activePods c ps node).map (fun q => (Chain.pod q.hash, podChain ps q)) ++
       ps.map (fun p => (Chain.plcy p.hash, policyChain p)) := rfl
@@ -101,8 +101,8 @@ theorem get_base_pod (ps : List NetPol) (act : List Pod) (h : String) : Tbl.get 
   unfold baseTable; split <;> simp [Tbl.get]
 
 theorem get_plcy (c : Cluster) {ps : List NetPol} (node : String) (hn : (ps.map (·.hash)).Nodup) {X : NetPol} (hX : X ∈ ps) :
-    Tbl.get (compileTable c ps node) (Chain.plcy X.hash) = some (policyChain X) := by
-  rw [compileTable_eq, get_append, get_append, get_base_plcy]
+    Tbl.get (compiledTable c ps node) (Chain.plcy X.hash) = some (policyChain X) := by
+  rw [compiledTable_eq, get_append, get_append, get_base_plcy]
   simp only
   rw [get_map_none _ (fun q : Pod => Chain.pod q.hash) _ _ (by intro x _; simp)]
   simp only
@@ -111,8 +111,8 @@ theorem get_plcy (c : Cluster) {ps : List NetPol} (node : String) (hn : (ps.map 
 
 theorem get_pod (c : Cluster) (ps : List NetPol) (node : String) (hn : (c.pods.map (·.hash)).Nodup) {q : Pod}
     (hq : q ∈ activePods c ps node) :
-    Tbl.get (compileTable c ps node) (Chain.pod q.hash) = some (podChain ps q) := by
-  rw [compileTable_eq, get_append, get_append, get_base_pod]
+    Tbl.get (compiledTable c ps node) (Chain.pod q.hash) = some (podChain ps q) := by
+  rw [compiledTable_eq, get_append, get_append, get_base_pod]
   simp only
   have hsub : ∀ y ∈ activePods c ps node, y ∈ c.pods := fun y hy => (List.mem_filter.mp hy).1
   rw [get_map_some (activePods c ps node) (fun q : Pod => Chain.pod q.hash) (podChain ps) q hq
@@ -134,7 +134,7 @@ theorem policyChain_tgt (X : NetPol) : ∀ r ∈ policyChain X, r.tgt = Tgt.acce
 /-- GLX-PLCY-<hash of X>: accept iff some rule of the compiled policy matches, otherwise return -/
 theorem evalChain_plcy (c : Cluster) {ps : List NetPol} (node : String) (hn : (ps.map (·.hash)).Nodup) {X : NetPol}
     (hX : X ∈ ps) (sets : List IpSet) (f : Flow) (n : Nat) :
-    evalChain sets (compileTable c ps node) f (n + 1) (Chain.plcy X.hash) =
+    evalChain sets (compiledTable c ps node) f (n + 1) (Chain.plcy X.hash) =
       if (policyChain X).any (PRule.matches sets f) then Outcome.accept else Outcome.fall := by
   rw [evalChain_succ, get_plcy c node hn hX]
   exact evalRules_allAccept _ sets f _ (policyChain_tgt X)
@@ -161,7 +161,7 @@ theorem evalRules_skip (call : Chain → Outcome) (sets : List IpSet) (f : Flow)
 /-- GLX-POD-<hash of q>: accept iff the chain of some selecting policy accepts, otherwise DROP -/
 theorem evalChain_pod (c : Cluster) {ps : List NetPol} (node : String) (hnp : (c.pods.map (·.hash)).Nodup)
     (hn : (ps.map (·.hash)).Nodup) {q : Pod} (hq : q ∈ activePods c ps node) (sets : List IpSet) (f : Flow) (n : Nat) :
-    evalChain sets (compileTable c ps node) f (n + 2) (Chain.pod q.hash) =
+    evalChain sets (compiledTable c ps node) f (n + 2) (Chain.pod q.hash) =
       if ps.any (fun X => selects X q && (policyChain X).any (PRule.matches sets f)) then Outcome.accept
       else Outcome.drop := by
   rw [evalChain_succ, get_pod c ps node hnp hq]
@@ -171,7 +171,7 @@ theorem evalChain_pod (c : Cluster) {ps : List NetPol} (node : String) (hnp : (c
     fun p hp => (List.mem_filter.mp hp).1
   rw [evalRules_jumps]
   · have e : (ps.filter (fun p => (compIngress p || compEgress p) && selectedBy p q)).any
-        (fun p => evalChain sets (compileTable c ps node) f (n + 1) (Chain.plcy p.hash) == Outcome.accept) =
+        (fun p => evalChain sets (compiledTable c ps node) f (n + 1) (Chain.plcy p.hash) == Outcome.accept) =
         ps.any (fun X => selects X q && (policyChain X).any (PRule.matches sets f)) := by
       rw [List.any_filter]
       apply any_congr'
@@ -316,9 +316,10 @@ structure Frag (c : Cluster) (ps : List NetPol) (node : String) : Prop where
   pols : ps.all (polOK c) = true
   one : ∀ q ∈ c.pods, q.node = node → ¬ (isolatedIngress ps q = true ∧ isolatedEgress ps q = true)
 
-theorem frag_of {c : Cluster} {ps : List NetPol} {node : String} {f : Flow} (h : inFragment c ps node f = true) :
+theorem frag_of {c : Cluster} {ps : List NetPol} {node : String} {f : Flow}
+    (h : (wfCluster c ps && ps.all (polOK c) && oneDirection c ps node && flowOK c ps node f) = true) :
     Frag c ps node ∧ flowOK c ps node f = true := by
-  simp only [inFragment, wfCluster, oneDirection, Bool.and_eq_true, decide_eq_true_eq, List.all_eq_true] at h
+  simp only [wfCluster, oneDirection, Bool.and_eq_true, decide_eq_true_eq, List.all_eq_true] at h
   obtain ⟨⟨⟨⟨⟨h1, h2⟩, h3⟩, h4⟩, h5⟩, h6⟩ := h
   refine ⟨⟨h1, h2, h3, List.all_eq_true.mpr h4, ?_⟩, h6⟩
   intro q hq hnode hboth
@@ -344,20 +345,20 @@ theorem act_sub {c : Cluster} {ps : List NetPol} {node : String} {q : Pod} (h : 
 
 theorem get_base_of_ne (c : Cluster) (ps : List NetPol) (node : String) (hact : activePods c ps node ≠ []) (k : Chain)
     (hk : k = .forward ∨ k = .input ∨ k = .output ∨ k = .glxIngress ∨ k = .glxEgress) :
-    Tbl.get (compileTable c ps node) k =
+    Tbl.get (compiledTable c ps node) k =
       Tbl.get [(Chain.forward, [⟨[], .jump .glxEgress⟩, ⟨[], .jump .glxIngress⟩]),
         (Chain.input, [⟨[], .jump .glxEgress⟩]),
         (Chain.output, [⟨[], .jump .glxIngress⟩]),
         (Chain.glxIngress, ((activePods c ps node).filter (hookedIngress ps)).flatMap (hookRule true)),
         (Chain.glxEgress, ((activePods c ps node).filter (hookedEgress ps)).flatMap (hookRule false))] k := by
-  rw [compileTable_eq, get_append, get_append]
+  rw [compiledTable_eq, get_append, get_append]
   unfold baseTable
   rw [if_neg hact]
   rcases hk with rfl | rfl | rfl | rfl | rfl <;> simp [Tbl.get]
 
 theorem get_base_of_nil (c : Cluster) (ps : List NetPol) (node : String) (hact : activePods c ps node = []) (h : Hook) :
-    Tbl.get (compileTable c ps node) h.chain = some [] := by
-  rw [compileTable_eq, get_append, get_append]
+    Tbl.get (compiledTable c ps node) h.chain = some [] := by
+  rw [compiledTable_eq, get_append, get_append]
   unfold baseTable
   rw [if_pos hact]
   cases h <;> simp [Tbl.get, Hook.chain]
@@ -365,7 +366,7 @@ theorem get_base_of_nil (c : Cluster) (ps : List NetPol) (node : String) (hact :
 /-- GLX-EGRESS when the source is an egress-isolated pod of this node: its API egress verdict, terminally -/
 theorem egressChain_some {c : Cluster} {ps : List NetPol} {node : String} (F : Frag c ps node) (f : Flow) {q : Pod}
     (hq : q ∈ c.pods) (hnode : q.node = node) (hip : q.ip = some f.src) (hiso : isolatedEgress ps q = true) :
-    evalChain (compileSets c ps) (compileTable c ps node) f 3 Chain.glxEgress =
+    evalChain (compileSets c ps) (compiledTable c ps node) f 3 Chain.glxEgress =
       if egressAllowed c ps q f then Outcome.accept else Outcome.drop := by
   have hqa : q ∈ activePods c ps node := mem_act hq hnode hip (by simp [hiso])
   have hact : activePods c ps node ≠ [] := fun e => by rw [e] at hqa; cases hqa
@@ -373,7 +374,7 @@ theorem egressChain_some {c : Cluster} {ps : List NetPol} {node : String} (F : F
     cases hi : isolatedIngress ps q
     · rfl
     · exact absurd ⟨hi, hiso⟩ (F.one q hq hnode)
-  have hpod : evalChain (compileSets c ps) (compileTable c ps node) f 2 (Chain.pod q.hash) =
+  have hpod : evalChain (compileSets c ps) (compiledTable c ps node) f 2 (Chain.pod q.hash) =
       if egressAllowed c ps q f then Outcome.accept else Outcome.drop := by
     rw [evalChain_pod c node F.podHashes F.polHashes hqa, podVerdict_egress c F.polHashes F.pols hq f hip hiso hone]
   rw [evalChain_succ, get_base_of_ne c ps node hact _ (by simp)]
@@ -388,7 +389,7 @@ theorem egressChain_some {c : Cluster} {ps : List NetPol} {node : String} (F : F
 /-- GLX-INGRESS when the destination is an ingress-isolated pod of this node: its API ingress verdict -/
 theorem ingressChain_some {c : Cluster} {ps : List NetPol} {node : String} (F : Frag c ps node) (f : Flow) {q : Pod}
     (hq : q ∈ c.pods) (hnode : q.node = node) (hip : q.ip = some f.dst) (hiso : isolatedIngress ps q = true) :
-    evalChain (compileSets c ps) (compileTable c ps node) f 3 Chain.glxIngress =
+    evalChain (compileSets c ps) (compiledTable c ps node) f 3 Chain.glxIngress =
       if ingressAllowed c ps q f then Outcome.accept else Outcome.drop := by
   have hqa : q ∈ activePods c ps node := mem_act hq hnode hip (by simp [hiso])
   have hact : activePods c ps node ≠ [] := fun e => by rw [e] at hqa; cases hqa
@@ -396,7 +397,7 @@ theorem ingressChain_some {c : Cluster} {ps : List NetPol} {node : String} (F : 
     cases hi : isolatedEgress ps q
     · rfl
     · exact absurd ⟨hiso, hi⟩ (F.one q hq hnode)
-  have hpod : evalChain (compileSets c ps) (compileTable c ps node) f 2 (Chain.pod q.hash) =
+  have hpod : evalChain (compileSets c ps) (compiledTable c ps node) f 2 (Chain.pod q.hash) =
       if ingressAllowed c ps q f then Outcome.accept else Outcome.drop := by
     rw [evalChain_pod c node F.podHashes F.polHashes hqa, podVerdict_ingress c F.polHashes F.pols hq f hip hiso hone]
   rw [evalChain_succ, get_base_of_ne c ps node hact _ (by simp)]
@@ -410,7 +411,7 @@ theorem ingressChain_some {c : Cluster} {ps : List NetPol} {node : String} (F : 
 
 theorem egressChain_none {c : Cluster} {ps : List NetPol} {node : String} (f : Flow)
     (hact : activePods c ps node ≠ []) (h : srcEgressIsolatedHere c ps node f = false) :
-    evalChain (compileSets c ps) (compileTable c ps node) f 3 Chain.glxEgress = Outcome.fall := by
+    evalChain (compileSets c ps) (compiledTable c ps node) f 3 Chain.glxEgress = Outcome.fall := by
   rw [evalChain_succ, get_base_of_ne c ps node hact _ (by simp)]
   simp only [Tbl.get, if_true, reduceCtorEq, if_false]
   apply evalRules_hooks_none
@@ -423,7 +424,7 @@ theorem egressChain_none {c : Cluster} {ps : List NetPol} {node : String} (f : F
 
 theorem ingressChain_none {c : Cluster} {ps : List NetPol} {node : String} (f : Flow)
     (hact : activePods c ps node ≠ []) (h : dstIngressIsolatedHere c ps node f = false) :
-    evalChain (compileSets c ps) (compileTable c ps node) f 3 Chain.glxIngress = Outcome.fall := by
+    evalChain (compileSets c ps) (compiledTable c ps node) f 3 Chain.glxIngress = Outcome.fall := by
   rw [evalChain_succ, get_base_of_ne c ps node hact _ (by simp)]
   simp only [Tbl.get, if_true, reduceCtorEq, if_false]
   apply evalRules_hooks_none
@@ -497,41 +498,47 @@ theorem inPart_some {c : Cluster} {ps : List NetPol} {node : String} (F : Frag c
       rw [this]; simp [h]
 
 theorem walk_of_base {c : Cluster} {ps : List NetPol} {node : String} (f : Flow) (hact : activePods c ps node ≠ []) :
-    walk (compileSets c ps) (compileTable c ps node) f =
+    walk (compileSets c ps) (compiledTable c ps node) f =
       match f.hook with
       | .forward =>
-        (match evalChain (compileSets c ps) (compileTable c ps node) f 3 Chain.glxEgress with
+        (match evalChain (compileSets c ps) (compiledTable c ps node) f 3 Chain.glxEgress with
          | .drop => Verdict.drop
          | .accept => Verdict.accept
-         | .fall => (match evalChain (compileSets c ps) (compileTable c ps node) f 3 Chain.glxIngress with
+         | .fall => (match evalChain (compileSets c ps) (compiledTable c ps node) f 3 Chain.glxIngress with
            | .drop => Verdict.drop
            | _ => Verdict.accept))
       | .input =>
-        (match evalChain (compileSets c ps) (compileTable c ps node) f 3 Chain.glxEgress with
+        (match evalChain (compileSets c ps) (compiledTable c ps node) f 3 Chain.glxEgress with
          | .drop => Verdict.drop
          | _ => Verdict.accept)
       | .output =>
-        (match evalChain (compileSets c ps) (compileTable c ps node) f 3 Chain.glxIngress with
+        (match evalChain (compileSets c ps) (compiledTable c ps node) f 3 Chain.glxIngress with
          | .drop => Verdict.drop
          | _ => Verdict.accept) := by
   unfold walk
   cases hh : f.hook
   · rw [Hook.chain, get_base_of_ne c ps node hact _ (by simp)]
     simp only [Tbl.get, if_true, Option.getD_some, evalRules, PRule.matches, List.all_nil]
-    cases evalChain (compileSets c ps) (compileTable c ps node) f 3 Chain.glxEgress <;>
-      cases evalChain (compileSets c ps) (compileTable c ps node) f 3 Chain.glxIngress <;> rfl
+    cases evalChain (compileSets c ps) (compiledTable c ps node) f 3 Chain.glxEgress <;>
+      cases evalChain (compileSets c ps) (compiledTable c ps node) f 3 Chain.glxIngress <;> rfl
   · rw [Hook.chain, get_base_of_ne c ps node hact _ (by simp)]
     simp only [Tbl.get, if_true, reduceCtorEq, if_false, Option.getD_some, evalRules, PRule.matches, List.all_nil]
-    cases evalChain (compileSets c ps) (compileTable c ps node) f 3 Chain.glxEgress <;> rfl
+    cases evalChain (compileSets c ps) (compiledTable c ps node) f 3 Chain.glxEgress <;> rfl
   · rw [Hook.chain, get_base_of_ne c ps node hact _ (by simp)]
     simp only [Tbl.get, if_true, reduceCtorEq, if_false, Option.getD_some, evalRules, PRule.matches, List.all_nil]
-    cases evalChain (compileSets c ps) (compileTable c ps node) f 3 Chain.glxIngress <;> rfl
+    cases evalChain (compileSets c ps) (compiledTable c ps node) f 3 Chain.glxIngress <;> rfl
 
 /-- MAIN LEMMA: inside the fragment the walk over the compiled sets and table accepts exactly what the API
     semantics (the part this node enforces) allows. -/
 theorem walk_fragment {c : Cluster} {ps : List NetPol} {node : String} {f : Flow}
     (h : inFragment c ps node f = true) :
     walk (compileSets c ps) (compileTable c ps node) f = Verdict.accept ↔ k8sAllowsOn node c ps f = true := by
+  have hlim : overLimit ps = false := by
+    simp only [inFragment, Bool.and_eq_true, Bool.not_eq_true'] at h; exact h.2
+  have hct : compileTable c ps node = compiledTable c ps node := by simp [compileTable, hlim]
+  rw [hct]
+  have h : (wfCluster c ps && ps.all (polOK c) && oneDirection c ps node && flowOK c ps node f) = true := by
+    simp only [inFragment, Bool.and_eq_true, Bool.not_eq_true'] at h ⊢; exact h.1
   obtain ⟨F, hflow⟩ := frag_of h
   rw [k8sAllowsOn_parts]
   by_cases hact : activePods c ps node = []
